@@ -40,9 +40,11 @@ type ProjOpts struct {
 	SkipLazy bool     // do not call getters that fill in lazily computed, persisted fields (none skipped by default)
 }
 
-// fields that are observed and logged but are not part of the property statement (never persisted by design):
-// creation times of the cache objects and the per-controller pending markers.
-var infoOnly = map[string]bool{"ctime_zero": true, "pending": true}
+// fields that are observed and logged but are not verdict-bearing: creation times of the cache objects and the
+// per-controller pending markers are not persisted by design and not named by the property; PrettyName()/String() are
+// memoized display names derived from name, namespace and pod (all compared on their own) -- a container that
+// outlives its pod keeps the memoized name in the running process only.
+var infoOnly = map[string]bool{"ctime_zero": true, "pending": true, "prettyname": true, "string": true}
 
 func canonJSON(v interface{}) string {
 	b, err := json.Marshal(v)
@@ -529,9 +531,9 @@ func (r *RawEntry) Set(v interface{}) {
 	}
 	r.Raw = b
 }
-func (r *RawEntry) Get() interface{}              { return r }
-func (r *RawEntry) UnmarshalJSON(b []byte) error  { r.Raw = append(json.RawMessage{}, b...); return nil }
-func (r *RawEntry) MarshalJSON() ([]byte, error)  { return r.Raw, nil }
+func (r *RawEntry) Get() interface{}             { return r }
+func (r *RawEntry) UnmarshalJSON(b []byte) error { r.Raw = append(json.RawMessage{}, b...); return nil }
+func (r *RawEntry) MarshalJSON() ([]byte, error) { return r.Raw, nil }
 func (r *RawEntry) Canon() string {
 	var x interface{}
 	d := json.NewDecoder(strings.NewReader(string(r.Raw)))
